@@ -203,7 +203,11 @@ func Family(name string, tier string) []*Scenario {
 				}
 			}
 		}
+		out = append(out, fourVertexSingleFault(thorough)...)
+		out = append(out, fiveVertexFaults(thorough)...)
 	case "C14":
+		out = append(out, fourVertexSingleFault(thorough)...)
+		out = append(out, fiveVertexFaults(thorough)...)
 		for n := 1; n <= 3; n++ {
 			for _, es := range AllDAGs(n) {
 				for _, scr := range assignments(n, []string{"ok", "err", "skip"}) {
@@ -303,10 +307,36 @@ func Family(name string, tier string) []*Scenario {
 					scr[i] = []string{"ok"}
 				}
 				for s := 1; s <= 2 && s <= n; s++ {
-					sc := GraphScenario(n, es, scr, nil, "par")
-					for i := 0; i < s; i++ {
-						sc.Shared = append(sc.Shared, i)
+					for _, mm := range [][2]string{{"par", "par"}, {"serial", "par"}, {"par", "serial"}, {"serial", "serial"}, {"max1", "par"}} {
+						if n == 3 && mm[0] != "par" && len(es) > 0 && !thorough {
+							continue
+						}
+						sc := GraphScenario(n, es, scr, nil, mm[0])
+						sc.SharedMode = mm[1]
+						for i := 0; i < s; i++ {
+							sc.Shared = append(sc.Shared, i)
+						}
+						out = append(out, sc)
 					}
+				}
+			}
+		}
+		// cancellation while tasks wait for a slot
+		for n := 2; n <= 3; n++ {
+			for _, es := range AllDAGs(n) {
+				if len(es) > 1 {
+					continue
+				}
+				scr := make([][]string, n)
+				for i := range scr {
+					scr[i] = []string{"ok"}
+				}
+				for _, mode := range []string{"max1", "max2", "serial"} {
+					if mode == "max2" && n < 3 {
+						continue
+					}
+					sc := GraphScenario(n, es, scr, nil, mode)
+					sc.Cancel = true
 					out = append(out, sc)
 				}
 			}
@@ -329,9 +359,6 @@ func Family(name string, tier string) []*Scenario {
 						continue
 					}
 					for _, mode := range modes {
-						if nbad > 0 && (mode == "max1" || mode == "max2") && !thorough {
-							continue
-						}
 						sc := GraphScenario(n, es, scr, nil, mode)
 						out = append(out, sc)
 					}
@@ -359,6 +386,7 @@ func Family(name string, tier string) []*Scenario {
 				out = append(out, GraphScenario(4, es, scr, nil, mode))
 			}
 		}
+		out = append(out, fiveVertexFaults(thorough)...)
 	case "C16hist":
 		// (a) construction histories
 		depth := 4
@@ -413,4 +441,80 @@ func edgeKey(n int, es [][2]int) string {
 		k += string(rune('0'+e[0])) + string(rune('0'+e[1])) + ","
 	}
 	return k
+}
+
+// fourVertexSingleFault: every labelled DAG on four vertices with exactly one task that fails or
+// returns ErrorSkipParents (canonical form: nothing above it carries a result).  Light scenarios.
+func fourVertexSingleFault(thorough bool) []*Scenario {
+	var out []*Scenario
+	for _, es := range AllDAGs(4) {
+		if len(es) < 2 {
+			continue
+		}
+		for v := 0; v < 4; v++ {
+			hasDependent := false
+			for _, e := range es {
+				if e[1] == v {
+					hasDependent = true
+				}
+			}
+			if !hasDependent {
+				continue
+			}
+			for _, r := range []string{"skip", "err"} {
+				scr := [][]string{{"ok"}, {"ok"}, {"ok"}, {"ok"}}
+				scr[v] = []string{r}
+				modes := []string{"par"}
+				if thorough {
+					modes = []string{"par", "serial", "max2"}
+				}
+				for _, mode := range modes {
+					sc := GraphScenario(4, es, scr, nil, mode)
+					sc.Light = 1
+					out = append(out, sc)
+				}
+			}
+		}
+	}
+	return out
+}
+
+// fiveVertexFaults: every DAG shape on five vertices with at most two tasks that fail or return
+// ErrorSkipParents (canonical form).  Explored under the default schedule with all completion orders.
+func fiveVertexFaults(thorough bool) []*Scenario {
+	var out []*Scenario
+	res := []string{"skip", "err"}
+	for _, es := range shapes5 {
+		if len(es) < 2 {
+			continue
+		}
+		add := func(scr [][]string) {
+			if !relevant(5, es, scr) {
+				return
+			}
+			sc := GraphScenario(5, es, scr, nil, "par")
+			sc.Light = 2
+			if thorough {
+				sc.Light = 1
+			}
+			out = append(out, sc)
+		}
+		base := func() [][]string { return [][]string{{"ok"}, {"ok"}, {"ok"}, {"ok"}, {"ok"}} }
+		for v := 0; v < 5; v++ {
+			for _, r := range res {
+				scr := base()
+				scr[v] = []string{r}
+				add(scr)
+				for w := v + 1; w < 5; w++ {
+					for _, r2 := range res {
+						scr2 := base()
+						scr2[v] = []string{r}
+						scr2[w] = []string{r2}
+						add(scr2)
+					}
+				}
+			}
+		}
+	}
+	return out
 }
